@@ -301,7 +301,10 @@ def index_meta(model, dec, fid, write_op, prop='C13', extra_fp=None):
                 if sp is None or len(sp) != 1:
                     out.append(V('%s.spacing_missing_but_uniform' % prop, fp, frame=fm.name, diff=med, got=sp))
                 else:
-                    ok = sp[0] == med if dev == 0.0 else abs(sp[0] - med) <= 1e-3 * abs(med)
+                    # the library takes the differences in the index dtype: float32 arithmetic differs from the float64 difference
+                    # of the decoded values by up to one float32 ulp - not a disagreement about which difference is meant
+                    exact_tol = 2e-6 if code == 2 else (1e-12 if code == 7 else 0.0)
+                    ok = abs(sp[0] - med) <= exact_tol * abs(med) if dev == 0.0 else abs(sp[0] - med) <= 1e-3 * abs(med)
                     if not ok:
                         out.append(V('%s.spacing_value' % prop, fp, frame=fm.name, want=med, got=sp[0], first_rows=xs[:4]))
             else:
